@@ -1,5 +1,6 @@
 import OtelVerif.Common.Line
 import OtelVerif.Model.C04
+import OtelVerif.Gen.C04Config
 /-! driver for C04: models `c04-ms` (MergeSplit, exact differential) and `c04-batcher` -/
 open OtelVerif OtelVerif.Line OtelVerif.Payload OtelVerif.C04
 
@@ -43,13 +44,14 @@ def checkCriterion (name : String) (sp : Split) (first : List (Nat × Nat)) : Li
   [ if holdsNew == grew then "prop criterion=ok"
     else s!"prop criterion=FAIL sig=C04/mergesplit/first-result-criterion-wrong/{name} items_first={w first} items_pending={w sp.r1} holds_new={holdsNew}" ]
 
-def showReqs {P : Type} (o : Ops P) (showP : P → String) (rs : Option (List (Req P))) : List String :=
+def showReqs {P : Type} (o : Ops P) (showP : P → String) (rs : Option (List (Req P))) (keepsReceiver : Bool := true) : List String :=
   match rs with
   | Option.none => ["obs diverge"]
   | some rs =>
     s!"obs n {rs.length}" :: (rs.zipIdx.map (fun (r, i) => s!"obs req {i} cs={r.cached} sz={o.size r.p} | {showP r.p}")) ++
       -- `res = append(res, req)`: the receiver is mutated and returned as the LAST result (the batcher reads it back)
-      ["obs last_is_receiver 1"]
+      -- (not when `split()` found the receiver emptied: then it is not returned at all)
+      [s!"obs last_is_receiver {if keepsReceiver then 1 else 0}"]
 
 def parseSizer (s : String) : Option Sizer :=
   if s = "items" then some ⟨false⟩ else if s = "bytes" then some ⟨true⟩ else Option.none
@@ -157,7 +159,7 @@ def msHandler : Handler MS where
                 let o := metricsOps keep sz
                 let r := mergeSplit o max { p := p1, cached := c1 } (c2.map (fun c => { p := p2, cached := c }))
                 let iw := fun (p : List MRes) => (mflatten p).map (fun c => (c.2.2.2.id, 1))
-                ({ s with inp := .metrics sz max (p1 ++ p2), split := ⟨iw p1, iw p2, c2.isSome⟩ }, showReqs o Codec.showMPayload r)
+                ({ s with inp := .metrics sz max (p1 ++ p2), split := ⟨iw p1, iw p2, c2.isSome⟩ }, showReqs o Codec.showMPayload r (mergeSplitKeepsReceiver o max { p := p1, cached := c1 } (c2.map (fun c => { p := p2, cached := c }))))
               | _, _ => (s, ["obs bad-op"])
             else
               match Codec.parsePayload t1, Codec.parsePayload t2 with
@@ -165,7 +167,7 @@ def msHandler : Handler MS where
                 let o := logsOps sz
                 let r := mergeSplit o max { p := p1, cached := c1 } (c2.map (fun c => { p := p2, cached := c }))
                 let iw := fun (p : List Res) => (flatten p).map (fun c => (c.2.2.id, c.2.2.w))
-                ({ s with inp := .logs sig sz max (p1 ++ p2), split := ⟨iw p1, iw p2, c2.isSome⟩ }, showReqs o Codec.showPayload r)
+                ({ s with inp := .logs sig sz max (p1 ++ p2), split := ⟨iw p1, iw p2, c2.isSome⟩ }, showReqs o Codec.showPayload r (mergeSplitKeepsReceiver o max { p := p1, cached := c1 } (c2.map (fun c => { p := p2, cached := c }))))
               | _, _ => (s, ["obs bad-op"])
         | _, _, _, _, _ => (s, ["obs bad-op"])
       | _ => (s, ["obs bad-op"])
@@ -221,6 +223,7 @@ structure IFlight where
   fid : Nat
   ids : List Nat
   finished : Option Err := none   -- some outcome
+  ids0 : List Nat := []           -- e2e only: requests present with an item-less resource shell only
 
 def parseKind (k : Nat) : Option Err :=
   match k with
@@ -240,6 +243,7 @@ structure BS where
   fails : List String := []
   lastFinish : Option (Nat × Err) := none
   pendingDisabled : Option Err := none
+  mon : Bool := false
 
 def startFlights (s : BS) (fl : List (Parts × List DoneObj)) : BS × List String :=
   -- the harness numbers the flushes started by one label in the order of their content
@@ -266,6 +270,13 @@ def batcherHandler : Handler BS where
       match kvNat [mn] "min", kvNat [mx] "max" with
       | some mn, some mx => ({ s with cfg := ⟨mn, mx⟩ }, ["obs done"])
       | _, _ => (s, ["obs bad-op"])
+    | ["cfgraw", ft, mn, mx] =>
+      -- a RAW BatchConfig: the verdict of the regenerated `(*BatchConfig).Validate` rules
+      match kvInt [ft] "ft", kvInt [mn] "min", kvInt [mx] "max" with
+      | some ft, some mn, some mx =>
+        if !OtelVerif.C04.Config.rulesKnown OtelVerif.C04.Config.batchEnvFields OtelVerif.Gen.C04Config.batchRules then (s, ["obs bad-op"]) else
+        (s, [s!"obs valid={b01 (OtelVerif.C04.Config.runRules (OtelVerif.C04.Config.BatchRaw.env (some ⟨ft, mn, mx⟩)) OtelVerif.Gen.C04Config.batchRules)}"])
+      | _, _, _ => (s, ["obs bad-op"])
     | ["consume", id, us] =>
       match kvNat [id] "id", (kv [us] "units").bind (fun u => (u.splitOn ",").mapM String.toNat?) with
       | some id, some us =>
@@ -334,7 +345,179 @@ def batcherHandler : Handler BS where
      | [] => ["prop done=ok"]) ++
     (if missing.isEmpty then ["prop all_fired=ok"] else [s!"prop all_fired=FAIL sig=C04/batcher/done-never-fired ids={missing}"])
 
+
+/-- `c04-e2e`: the real queue + default batcher with REAL requests (real MergeSplit).  `mon=0` (logs, items sizer): exact
+differential against the batcher model (the pending batch is not observable from outside: `obs cur` lines dropped);
+`mon=1`: the implementation's `tr` lines are only judged by the Done oracle above. -/
+def e2eHandler : Handler BS where
+  init := {}
+  onCase := fun s toks => { s with mon := kv toks "mon" == some "1" }
+  onOp := fun s toks =>
+    if s.mon then
+      match toks with
+      | ["cfg", _, _] => (s, ["obs done"])
+      | ["consume", id, _] =>
+        match kvNat [id] "id" with
+        | some id => ({ s with consumed := s.consumed ++ [id] }, [])
+        | Option.none => (s, ["obs bad-op"])
+      | ["finish", f, kind] =>
+        match kvNat [f] "f", (kvNat [kind] "kind").bind parseKind with
+        | some f, some e => ({ s with lastFinish := some (f, e) }, [])
+        | _, _ => (s, ["obs bad-op"])
+      | ["tick"] | ["shutdown"] => (s, [])
+      | _ => (s, ["obs bad-op"])
+    else
+      let r := batcherHandler.onOp s toks
+      (r.1, r.2.filter (fun l => !l.startsWith "obs cur"))
+  onObs := fun s toks =>
+    let s := match s.lastFinish with
+      | some (f, err) => { s with lastFinish := Option.none,
+                                   iflights := s.iflights.map (fun g => if g.fid = f then { g with finished := some err } else g) }
+      | Option.none => s
+    match toks with
+    | [_, "flush", f, parts] =>
+      match kvNat [f] "f", (kv [parts] "parts").bind parseParts with
+      | some f, some p =>
+        -- `ids`: requests with an ITEM in the batch (its outcome MUST reach them); `ids0`: requests of which the batch holds
+        -- only an emptied resource shell (its outcome MAY reach them: `C04_done_covers_all_parts` asks a Done only for
+        -- units that weigh something, `C04_done_only_own_parts` allows a Done for any unit)
+        let pos := ((p.filter (fun u => u.2 > 0)).map (·.1)).eraseDups
+        let zero := ((p.map (·.1)).eraseDups).filter (fun i => !pos.contains i)
+        { s with iflights := s.iflights ++ [{ fid := f, ids := pos, ids0 := zero }] }
+      | _, _ => { s with fails := s.fails ++ ["prop done=FAIL sig=C04/batcher/unparsable-flush"] }
+    | [_, "fired", id, err, plain, shut] =>
+      match kvNat [id] "id", kvNat [err] "err", kvNat [plain] "plain", kvNat [shut] "shut" with
+      | some id, some err, some plain, some shut =>
+        let must := s.iflights.filter (fun g => g.ids.contains id)
+        let may := s.iflights.filter (fun g => g.ids0.contains id)
+        let got : Err := { plain := plain == 1, shut := shut == 1 }
+        let lo : Err := must.foldl (fun acc g => acc.or (g.finished.getD {})) {}
+        let hi : Err := may.foldl (fun acc g => acc.or (g.finished.getD {})) lo
+        let sub := fun (a b : Err) => (!a.plain || b.plain) && (!a.shut || b.shut)
+        let s := { s with ifired := s.ifired ++ [(id, got)] }
+        if (s.ifired.filter (·.1 = id)).length > 1 then
+          { s with fails := s.fails ++ [s!"prop done=FAIL sig=C04/batcher/done-fired-twice id={id}"] }
+        else if must.any (fun g => g.finished.isNone) then
+          { s with fails := s.fails ++ [s!"prop done=FAIL sig=C04/batcher/done-before-all-batches-finished id={id}"] }
+        else if must.isEmpty && may.isEmpty then
+          { s with fails := s.fails ++ [s!"prop done=FAIL sig=C04/batcher/done-without-any-batch id={id}"] }
+        else if (err == 1) != got.any || (lo.any && !got.any) || (got.any && !hi.any) then
+          { s with fails := s.fails ++ [s!"prop done=FAIL sig=C04/batcher/done-error-mismatch id={id} reported={err}"] }
+        else if !(sub lo got && sub got hi) then
+          { s with fails := s.fails ++ [s!"prop done=FAIL sig=C04/batcher/done-error-classification-lost id={id} got_plain={plain} got_shutdown={shut} want_plain={b01 lo.plain} want_shutdown={b01 lo.shut}"] }
+        else s
+      | _, _, _, _ => { s with fails := s.fails ++ ["prop done=FAIL sig=C04/batcher/unparsable-fired"] }
+    | _ => s
+  onEnd := batcherHandler.onEnd
+
+/-! ### configuration glue (`c04-config`): regenerated validation rules, `newQueueBatchConfig`, `newQueueBatch` -/
+
+open OtelVerif.C04.Config in
+structure CS where
+  fails : List String := []
+  implValid : Bool := false
+  mergeIn : Option (QRaw × LegacyRaw) := none
+
+namespace Cfg
+open OtelVerif.C04.Config OtelVerif.Gen.C04Config
+
+def bool? (toks : List String) (k : String) : Option Bool :=
+  match kvNat toks k with
+  | some 0 => some false
+  | some 1 => some true
+  | _ => Option.none
+
+def parseQ (toks : List String) : Option QRaw := do
+  let hasBatch ← bool? toks "batch"
+  let b : BatchRaw := ⟨← kvInt toks "ft", ← kvInt toks "min", ← kvInt toks "max"⟩
+  pure { enabled := ← bool? toks "en", waitForResult := ← bool? toks "wfr", sizer := ← kvInt toks "sizer",
+         queueSize := ← kvInt toks "qsize", blockOnOverflow := ← bool? toks "boo", storage := ← bool? toks "storage",
+         numConsumers := ← kvInt toks "ncons", batch := if hasBatch then some b else Option.none }
+
+def parseL (toks : List String) : Option LegacyRaw := do
+  pure { enabled := ← bool? toks "len", flushTimeout := ← kvInt toks "lft", sizer := ← kvInt toks "lsizer",
+         min := ← kvInt toks "lmin", max := ← kvInt toks "lmax" }
+
+def showQ (q : QRaw) : String :=
+  let b := q.batch.getD ⟨0, 0, 0⟩
+  s!"en={b01 q.enabled} wfr={b01 q.waitForResult} sizer={q.sizer} qsize={q.queueSize} boo={b01 q.blockOnOverflow} storage={b01 q.storage} ncons={q.numConsumers} batch={b01 q.batch.isSome} ft={b.flushTimeout} min={b.min} max={b.max}"
+
+def showBuilt : Built → String
+  | .unsupportedSizer => "obs built kind=err"
+  | .disabled _ => "obs built kind=disabled"
+  | .dflt sz b w => s!"obs built kind=dflt sizer={sz} ft={b.flushTimeout} min={b.min} max={b.max} workers={w}"
+
+def parseBuilt (toks : List String) : Option Built :=
+  match kv toks "kind" with
+  | some "err" => some .unsupportedSizer
+  | some "disabled" => some (.disabled 1)
+  | some "dflt" => do
+    pure (.dflt (← kvInt toks "sizer") ⟨← kvInt toks "ft", ← kvInt toks "min", ← kvInt toks "max"⟩ (← kvInt toks "workers"))
+  | _ => Option.none
+
+def showFields (tag : String) (d : List (String × Int)) : String :=
+  s!"obs {tag} " ++ " ".intercalate (d.map (fun (k, v) => s!"{k}={v}"))
+
+/-- the environments answer for every field the regenerated rules read (else the driver refuses to judge) -/
+def rulesOK : Bool :=
+  rulesKnown batchEnvFields batchRules && rulesKnown queueEnvFields queueRules && rulesKnown legacyEnvFields legacyRules
+
+end Cfg
+
+open OtelVerif.C04.Config OtelVerif.Gen.C04Config in
+def configHandler : Handler CS where
+  init := {}
+  onOp := fun s toks =>
+    if !Cfg.rulesOK then (s, ["obs bad-op"]) else
+    match toks with
+    | "qb" :: rest =>
+      -- queuebatch package: Config.Validate, BatchConfig.Validate, newQueueBatch(set, cfg, next, old)
+      match Cfg.parseQ rest, Cfg.bool? rest "old", (kv rest "sizers").map (fun x => x.toList.filterMap (fun c => c.toString.toInt?)) with
+      | some q, some old, some sizers =>
+        let vq := runRules q.env queueRules
+        let vb := runRules (BatchRaw.env q.batch) batchRules
+        let lines := [s!"obs valid q={b01 vq} b={b01 vb}"]
+        if q.enabled && vb && (vq || old && q.batch.isSome) then (s, lines ++ [Cfg.showBuilt (newQueueBatch sizers q old)]) else (s, lines)
+      | _, _, _ => (s, ["obs bad-op"])
+    | "merge" :: rest =>
+      -- internal package: BatcherConfig.Validate, newQueueBatchConfig(qCfg, bCfg)
+      match Cfg.parseQ rest, Cfg.parseL rest, kvInt rest "maxint", kvInt rest "numcpu" with
+      | some q, some l, some mi, some nc =>
+        ({ s with mergeIn := some (q, l) }, [s!"obs lvalid={b01 (runRules l.env legacyRules)}", "obs merged " ++ Cfg.showQ (newQueueBatchConfig q l mi nc)])
+      | _, _, _, _ => (s, ["obs bad-op"])
+    | ["defaults"] => (s, [Cfg.showFields "defq" defaultQueue, Cfg.showFields "defl" defaultLegacy])
+    | _ => (s, ["obs bad-op"])
+  onObs := fun s toks =>
+    match toks with
+    | _ :: "valid" :: rest => { s with implValid := kvNat rest "b" == some 1 }
+    | _ :: "merged" :: rest =>
+      -- the deprecated batcher configuration, when enabled, is what the batcher enforces: its limits reach the merged
+      -- configuration unchanged; when it is not enabled the queue configuration is used as written
+      match s.mergeIn, Cfg.parseQ rest with
+      | some (q, l), some m =>
+        let want : Option BatchRaw := if l.enabled then some ⟨l.flushTimeout, l.min, l.max⟩ else q.batch
+        if m.batch != want then
+          { s with fails := s.fails ++ [s!"prop accepted_cfg=FAIL sig=C04/config/configured-batch-limits-not-applied {" ".intercalate rest}"] }
+        else if !l.enabled && m != q then
+          { s with fails := s.fails ++ [s!"prop accepted_cfg=FAIL sig=C04/config/queue-config-changed-without-legacy-batcher {" ".intercalate rest}"] }
+        else s
+      | _, _ => { s with fails := s.fails ++ ["prop accepted_cfg=FAIL sig=C04/config/unparsable-merged"] }
+    | _ :: "built" :: rest =>
+      match Cfg.parseBuilt rest with
+      | some b =>
+        if s.implValid && !builtOk b then
+          { s with fails := s.fails ++ [s!"prop accepted_cfg=FAIL sig=C04/config/accepted-config-breaks-batcher-precondition {" ".intercalate rest}"] }
+        else s
+      | Option.none => { s with fails := s.fails ++ ["prop accepted_cfg=FAIL sig=C04/config/unparsable-built"] }
+    | _ => s
+  onEnd := fun s =>
+    match s.fails with
+    | f :: _ => [f]
+    | [] => ["prop accepted_cfg=ok"]
+
 end OtelVerif.Drivers.C04
 
 def main : IO UInt32 :=
-  runMulti [("c04-ms", run OtelVerif.Drivers.C04.msHandler), ("c04-batcher", run OtelVerif.Drivers.C04.batcherHandler)]
+  runMulti [("c04-ms", run OtelVerif.Drivers.C04.msHandler), ("c04-batcher", run OtelVerif.Drivers.C04.batcherHandler),
+    ("c04-config", run OtelVerif.Drivers.C04.configHandler),
+    ("c04-e2e", run OtelVerif.Drivers.C04.e2eHandler)]
